@@ -34,24 +34,110 @@ Proof.
 Qed.
 
 Definition rt_pinv (E : list rt_event) (st : rt_state) : Prop :=
-  Forall (rt_node_from E) (rt_nodes (rs_q st)).
+  Forall (rt_node_from E) (rt_nodes (rs_q st)) /\ Forall (rt_node_from E) (rt_held (rs_sess st)).
+
+Lemma rt_node_from_bump : forall E n c, rt_node_from E n -> rt_node_from E (rt_bump_node n c).
+Proof. intros E n c (cfg & r & I & A & B). exists cfg, r. cbn [rt_bump_node qn_sess qn_mid qn_bytes qn_timeout qn_max]. auto. Qed.
 
 Lemma rt_enqueue_pinv : forall E st n d, rt_pinv E st -> rt_node_from E n -> rt_pinv E (rt_enqueue st n d).
 Proof.
-  intros E st n d P Hn. unfold rt_pinv in *.
-  eapply Permutation_Forall; [apply Permutation_sym; apply rt_enqueue_nodes|]. constructor; assumption.
+  intros E st n d (P & H) Hn. destruct (rt_enqueue_nodes st n d) as (Pm & _ & _ & S). split.
+  - eapply Permutation_Forall; [apply Permutation_sym; exact Pm|]. constructor; assumption.
+  - rewrite S. exact H.
+Qed.
+
+Lemma rt_release_go_pinv : forall E dq st ns ca,
+  Forall (rt_node_from E) (rt_nodes (rs_q st)) -> Forall (rt_node_from E) dq ->
+  match rt_release_go st ns ca dq with
+  | (st2, ca2, dq2, o) =>
+      Forall (rt_node_from E) (rt_nodes (rs_q st2)) /\ Forall (rt_node_from E) dq2 /\
+      Forall (rt_out_from E) o /\ rs_sess st2 = rs_sess st
+  end.
+Proof.
+  intros E. induction dq as [|n dq IH]; intros st ns ca P H; cbn [rt_release_go].
+  - repeat split; auto.
+  - destruct (ns <=? ca); [repeat split; auto|].
+    inversion H as [|? ? Hn H']; subst.
+    set (c := qn_cnt n + 1). set (st1 := rt_enqueue st (rt_bump_node n c) (qn_timeout n * 2 ^ c)).
+    destruct (rt_enqueue_nodes st (rt_bump_node n c) (qn_timeout n * 2 ^ c)) as (Pm & _ & _ & S). fold st1 in Pm, S.
+    assert (P1 : Forall (rt_node_from E) (rt_nodes (rs_q st1))).
+    { eapply Permutation_Forall; [apply Permutation_sym; exact Pm|]. constructor; [apply rt_node_from_bump; exact Hn|exact P]. }
+    specialize (IH st1 ns (ca + 1) P1 H'). destruct (rt_release_go st1 ns (ca + 1) dq) as [[[st2 ca2] dq2] o2].
+    destruct IH as (P2 & H2 & O2 & S2). split; [exact P2|]. split; [exact H2|]. split; [|congruence].
+    constructor; [|exact O2]. destruct Hn as (cfg & r & I & A & B). cbn. exists (qn_mid n), cfg, r. auto.
+Qed.
+
+Lemma rt_pinv_held_split : forall E st s, rt_pinv E st ->
+  exists rest, Forall (rt_node_from E) (si_hold (rt_sget s (rs_sess st))) /\ Forall (rt_node_from E) rest /\
+    forall e, Permutation (rt_held (rt_sset s e (rs_sess st))) (si_hold e ++ rest).
+Proof.
+  intros E st s (_ & H). destruct (rt_held_get_set s (rs_sess st)) as (rest & P1 & P2).
+  exists rest. eapply Permutation_Forall in H; [|exact P1]. apply Forall_app in H. destruct H. auto.
+Qed.
+
+Lemma rt_release_pinv : forall E st s, rt_pinv E st ->
+  rt_pinv E (fst (rt_release st s)) /\ Forall (rt_out_from E) (snd (rt_release st s)).
+Proof.
+  intros E st s P. destruct (rt_pinv_held_split E st s P) as (rest & Hs & Hr & P2). destruct P as (Pq & _).
+  unfold rt_release. set (si := rt_sget s (rs_sess st)) in *.
+  pose proof (rt_release_go_pinv E (si_hold si) st (si_nstart si) (si_active si) Pq Hs) as G.
+  destruct (rt_release_go st (si_nstart si) (si_active si) (si_hold si)) as [[[st1 ca] dq] o].
+  destruct G as (P1 & H1 & O1 & S1). cbn [fst snd]. split; [|exact O1]. split; [exact P1|].
+  cbn [rt_set_sess rs_sess]. rewrite S1.
+  eapply Permutation_Forall; [apply Permutation_sym; apply (P2 (rt_mk_sinfo (si_nstart si) ca dq))|].
+  apply Forall_app. auto.
+Qed.
+
+Lemma rt_pinv_set_same_hold : forall E st s e, si_hold e = si_hold (rt_sget s (rs_sess st)) ->
+  rt_pinv E st -> rt_pinv E (rt_set_sess st (rt_sset s e (rs_sess st))).
+Proof.
+  intros E st s e He P. destruct (rt_pinv_held_split E st s P) as (rest & Hs & Hr & P2). destruct P as (Pq & _).
+  split; [exact Pq|]. cbn [rt_set_sess rs_sess].
+  eapply Permutation_Forall; [apply Permutation_sym; apply (P2 e)|]. rewrite He. apply Forall_app. auto.
+Qed.
+
+Lemma rt_free_slot_pinv : forall E st s, rt_pinv E st ->
+  rt_pinv E (fst (rt_free_slot st s)) /\ Forall (rt_out_from E) (snd (rt_free_slot st s)).
+Proof.
+  intros E st s P. unfold rt_free_slot. destruct (0 <? si_active (rt_sget s (rs_sess st))).
+  - apply rt_release_pinv. apply rt_pinv_set_same_hold; [reflexivity|exact P].
+  - cbn. split; [exact P|constructor].
+Qed.
+
+Lemma rt_free_slots_pinv : forall E k st s, rt_pinv E st ->
+  rt_pinv E (fst (rt_free_slots k st s)) /\ Forall (rt_out_from E) (snd (rt_free_slots k st s)).
+Proof.
+  intros E. induction k as [|k IH]; intros st s P; cbn [rt_free_slots].
+  - cbn. split; [exact P|constructor].
+  - destruct (rt_free_slot_pinv E st s P) as [P1 O1]. destruct (rt_free_slot st s) as [st1 o1]. cbn [fst snd] in *.
+    destruct (IH st1 s P1) as [P2 O2]. destruct (rt_free_slots k st1 s) as [st2 o2]. cbn [fst snd] in *.
+    split; [exact P2|]. apply Forall_app. auto.
 Qed.
 
 Lemma rt_retransmit_pinv : forall E st n,
   rt_pinv E st -> rt_node_from E n ->
   rt_pinv E (fst (rt_retransmit st n)) /\ Forall (rt_out_from E) (snd (rt_retransmit st n)).
 Proof.
-  intros E st n P (cfg & r & I & A & B). unfold rt_retransmit.
-  destruct (qn_cnt n <? qn_max n); cbn [fst snd].
-  - split.
-    + apply rt_enqueue_pinv; [exact P|]. exists cfg, r. cbn [qn_sess qn_mid qn_bytes qn_timeout qn_max]. auto.
-    + constructor; [|constructor]. cbn. exists (qn_mid n), cfg, r. auto.
-  - split; [exact P|]. constructor; [|constructor]. cbn. exists (qn_bytes n), cfg, r. auto.
+  intros E st n P Hn. unfold rt_retransmit.
+  destruct (qn_cnt n <? qn_max n).
+  - set (c := (qn_cnt n + 1) mod 256).
+    assert (P1 : rt_pinv E (rt_enqueue st (rt_bump_node n c) (qn_timeout n * 2 ^ c))).
+    { apply rt_enqueue_pinv; [exact P|apply rt_node_from_bump; exact Hn]. }
+    destruct (_ <=? _); cbn [fst snd].
+    + split; [exact P1|repeat constructor].
+    + split; [apply rt_pinv_set_same_hold; [reflexivity|exact P1]|].
+      constructor; [|constructor]. destruct Hn as (cfg & r & I & A & B). cbn. exists (qn_mid n), cfg, r. auto.
+  - destruct (rt_free_slot_pinv E st (qn_sess n) P) as [P1 O1].
+    destruct (rt_free_slot st (qn_sess n)) as [st1 o1]. cbn [fst snd] in *.
+    split; [exact P1|]. apply Forall_app. split; [exact O1|]. constructor; [|constructor].
+    destruct Hn as (cfg & r & I & A & B). cbn. exists (qn_bytes n), cfg, r. auto.
+Qed.
+
+Lemma rt_pinv_set_q : forall E st q', rt_pinv E st ->
+  (forall n, In n (rt_nodes q') -> In n (rt_nodes (rs_q st))) -> rt_pinv E (rt_set_q st q').
+Proof.
+  intros E st q' (P & H) Sub. split; [|exact H]. cbn [rt_set_q rs_q]. rewrite Forall_forall in *.
+  intros n I. apply P. apply Sub. exact I.
 Qed.
 
 Lemma rt_fire_pinv : forall E fuel st, rt_pinv E st ->
@@ -61,20 +147,28 @@ Proof.
   - cbn [fst snd]. split; [exact P|]. destruct (rt_due st); repeat constructor.
   - destruct (rt_due st); [|cbn; split; [exact P|constructor]].
     destruct (sq_pop (rs_q st)) as [[[t n] q']|] eqn:Pp; [|cbn; split; [exact P|constructor]].
-    pose proof (rt_nodes_pop _ _ _ _ Pp) as EN. unfold rt_pinv in P. rewrite EN in P.
-    inversion P as [|? ? Hn P']; subst.
-    assert (P1 : rt_pinv E (rt_set_q st q')) by exact P'.
+    pose proof (rt_nodes_pop _ _ _ _ Pp) as EN.
+    assert (Hn : rt_node_from E n).
+    { destruct P as (Pq & _). rewrite EN in Pq. inversion Pq; assumption. }
+    assert (P1 : rt_pinv E (rt_set_q st q')).
+    { apply rt_pinv_set_q; [exact P|]. intros x I. rewrite EN. right. exact I. }
     destruct (rt_retransmit_pinv E (rt_set_q st q') n P1 Hn) as [P2 O2].
     destruct (rt_retransmit (rt_set_q st q') n) as [st1 o1]. cbn [fst snd] in *.
     destruct (IH st1 P2) as [P3 O3]. destruct (rt_fire f st1) as [st2 o2]. cbn [fst snd] in *.
     split; [exact P3|]. apply Forall_app. auto.
 Qed.
 
-Lemma rt_pinv_sub : forall E st q', rt_pinv E st ->
-  (forall n, In n (rt_nodes q') -> In n (rt_nodes (rs_q st))) -> rt_pinv E (rt_set_q st q').
+Lemma rt_fire_all_pinv : forall E st, rt_pinv E st ->
+  rt_pinv E (fst (rt_fire_all st)) /\ Forall (rt_out_from E) (snd (rt_fire_all st)).
+Proof. intros. unfold rt_fire_all. apply rt_fire_pinv. assumption. Qed.
+
+Lemma rt_removed_pinv : forall E st s m t n q', rt_pinv E st -> sq_remove (rs_q st) s m = Some ((t, n), q') ->
+  rt_pinv E (rt_set_q st q') /\ rt_node_from E n.
 Proof.
-  intros E st q' P Sub. unfold rt_pinv in *. cbn [rt_set_q rs_q]. rewrite Forall_forall in *.
-  intros n I. apply P. apply Sub. exact I.
+  intros E st s m t n q' P Rm. destruct (rt_nodes_remove _ _ _ _ _ _ Rm) as [Pm _]. split.
+  - apply rt_pinv_set_q; [exact P|]. intros x I. eapply Permutation_in; [apply Permutation_sym; exact Pm|]. right. exact I.
+  - destruct P as (Pq & _). rewrite Forall_forall in Pq. apply Pq.
+    eapply Permutation_in; [apply Permutation_sym; exact Pm|]. left. reflexivity.
 Qed.
 
 Lemma rt_step_pinv : forall E st ev, rt_pinv E st ->
@@ -83,73 +177,78 @@ Proof.
   intros E st ev P.
   assert (Sub : forall e, In e E -> In e (E ++ [ev])) by (intros; apply in_or_app; auto).
   assert (P' : rt_pinv (E ++ [ev]) st).
-  { unfold rt_pinv in *. eapply Forall_impl; [|exact P]. intros n. apply rt_node_from_mono. exact Sub. }
+  { destruct P as (Pq & Ph). split; (eapply Forall_impl; [|eassumption]); intros n; apply rt_node_from_mono; exact Sub. }
   clear P. set (E' := E ++ [ev]) in *.
   assert (Last : In ev E') by (apply in_or_app; right; left; reflexivity).
   destruct ev as [dt|s m b cfg r| |s m|s m|s m tok|s reason|s m|tmo|]; cbn [rt_step].
   - cbn. split; [exact P'|constructor].
-  - unfold rt_send. cbn [fst snd]. split.
-    + apply rt_enqueue_pinv; [exact P'|]. exists cfg, r. cbn [qn_sess qn_mid qn_bytes qn_timeout qn_max]. auto.
-    + constructor; [|repeat constructor]. cbn. exists m, cfg, r. auto.
-  - unfold rt_tick, rt_fire_all. destruct (rt_fire_pinv E' (rt_budget (rs_q st)) st P') as [P1 O1].
-    destruct (rt_fire (rt_budget (rs_q st)) st) as [st1 o]. destruct (rt_wait st1) as [w hd].
+  - unfold rt_send. set (T := fp_calc_timeout _ _ _ _ _).
+    destruct (rt_pinv_held_split E' st s P') as (rest & Hs & Hr & P2). pose proof P' as (Pq & _).
+    set (si := rt_sget s (rs_sess st)) in *.
+    destruct (si_nstart si <=? si_active si).
+    + destruct (existsb _ _); cbn [fst snd]; [split; [exact P'|repeat constructor]|].
+      split; [|repeat constructor]. split; [exact Pq|]. cbn [rs_sess].
+      eapply Permutation_Forall; [apply Permutation_sym; apply P2|]. cbn [si_hold].
+      apply Forall_app. split; [|exact Hr]. apply Forall_app. split; [exact Hs|].
+      constructor; [|constructor]. exists cfg, r. cbn [qn_sess qn_mid qn_bytes qn_timeout qn_max]. auto.
+    + cbn [fst snd]. split.
+      * apply rt_enqueue_pinv.
+        -- split; [exact Pq|]. cbn [rs_sess]. eapply Permutation_Forall; [apply Permutation_sym; apply P2|].
+           cbn [si_hold]. apply Forall_app. auto.
+        -- exists cfg, r. cbn [qn_sess qn_mid qn_bytes qn_timeout qn_max]. auto.
+      * constructor; [|repeat constructor]. cbn. exists m, cfg, r. auto.
+  - unfold rt_tick. destruct (rt_fire_all_pinv E' st P') as [P1 O1].
+    destruct (rt_fire_all st) as [st1 o]. destruct (rt_wait st1) as [w hd].
     cbn [fst snd] in *. split; [exact P1|]. apply Forall_app. split; [exact O1|repeat constructor].
-  - unfold rt_ack, rt_fire_all. destruct (sq_remove (rs_q st) s m) as [[[t n] q']|] eqn:Rm.
-    + destruct (rt_nodes_remove _ _ _ _ _ _ Rm) as [Pm _].
-      assert (P1 : rt_pinv E' (rt_set_q st q')).
-      { apply rt_pinv_sub; [exact P'|]. intros x I. eapply Permutation_in; [apply Permutation_sym; exact Pm|]. right. exact I. }
-      destruct (rt_fire_pinv E' (rt_budget (rs_q (rt_set_q st q'))) (rt_set_q st q') P1) as [P2 O2].
-      destruct (rt_fire _ (rt_set_q st q')) as [st1 o]. cbn [fst snd] in *.
-      split; [exact P2|]. constructor; [exact I|exact O2].
-    + apply rt_fire_pinv. exact P'.
-  - unfold rt_rst, rt_fire_all. destruct (sq_remove (rs_q st) s m) as [[[t n] q']|] eqn:Rm.
-    + destruct (rt_nodes_remove _ _ _ _ _ _ Rm) as [Pm _].
-      assert (Hn : rt_node_from E' n).
-      { unfold rt_pinv in P'. rewrite Forall_forall in P'. apply P'.
-        eapply Permutation_in; [apply Permutation_sym; exact Pm|]. left. reflexivity. }
-      assert (P1 : rt_pinv E' (rt_set_q st q')).
-      { apply rt_pinv_sub; [exact P'|]. intros x I. eapply Permutation_in; [apply Permutation_sym; exact Pm|]. right. exact I. }
-      destruct (rt_fire_pinv E' (rt_budget (rs_q (rt_set_q st q'))) (rt_set_q st q') P1) as [P2 O2].
-      destruct (rt_fire _ (rt_set_q st q')) as [st1 o]. cbn [fst snd] in *.
-      split; [exact P2|]. constructor; [|exact O2].
+  - unfold rt_ack. destruct (sq_remove (rs_q st) s m) as [[[t n] q']|] eqn:Rm.
+    + destruct (rt_removed_pinv E' st s m t n q' P' Rm) as [P1 Hn].
+      destruct (rt_free_slot_pinv E' _ s P1) as [P2 O2]. destruct (rt_free_slot (rt_set_q st q') s) as [st1 o1].
+      cbn [fst snd] in *. destruct (rt_fire_all_pinv E' st1 P2) as [P3 O3]. destruct (rt_fire_all st1) as [st2 o2].
+      cbn [fst snd] in *. split; [exact P3|]. constructor; [exact I|]. apply Forall_app. auto.
+    + apply rt_fire_all_pinv. exact P'.
+  - unfold rt_rst. destruct (sq_remove (rs_q st) s m) as [[[t n] q']|] eqn:Rm.
+    + destruct (rt_removed_pinv E' st s m t n q' P' Rm) as [P1 Hn].
+      destruct (rt_free_slot_pinv E' _ s P1) as [P2 O2]. destruct (rt_free_slot (rt_set_q st q') s) as [st1 o1].
+      cbn [fst snd] in *. destruct (rt_fire_all_pinv E' st1 P2) as [P3 O3]. destruct (rt_fire_all st1) as [st2 o2].
+      cbn [fst snd] in *. split; [exact P3|]. apply Forall_app. split; [exact O2|]. constructor; [|exact O3].
       destruct Hn as (cfg & r & I & A & B). cbn. exists (qn_bytes n), cfg, r. auto.
-    + destruct (rt_fire_pinv E' (rt_budget (rs_q st)) st P') as [P2 O2].
-      destruct (rt_fire (rt_budget (rs_q st)) st) as [st1 o]. cbn [fst snd] in *.
+    + destruct (rt_fire_all_pinv E' st P') as [P2 O2]. destruct (rt_fire_all st) as [st1 o]. cbn [fst snd] in *.
       split; [exact P2|]. constructor; [exact I|exact O2].
-  - unfold rt_non, rt_fire_all.
+  - unfold rt_non.
     pose proof (rt_nodes_cancel (rt_tok_match s tok) (rs_q st)) as Pm.
     destruct (sq_cancel (rt_tok_match s tok) (rs_q st)) as [rm q']. cbn [fst snd] in Pm.
     assert (P1 : rt_pinv E' (rt_set_q st q')).
-    { apply rt_pinv_sub; [exact P'|]. intros x I. eapply Permutation_in; [apply Permutation_sym; exact Pm|].
+    { apply rt_pinv_set_q; [exact P'|]. intros x I. eapply Permutation_in; [apply Permutation_sym; exact Pm|].
       apply in_or_app. right. exact I. }
-    destruct (rt_fire_pinv E' (rt_budget (rs_q (rt_set_q st q'))) (rt_set_q st q') P1) as [P2 O2].
-    destruct (rt_fire _ (rt_set_q st q')) as [st1 o]. cbn [fst snd] in *.
-    split; [exact P2|]. apply Forall_app. split; [|exact O2].
+    destruct (rt_free_slots_pinv E' (length rm) _ s P1) as [P2 O2].
+    destruct (rt_free_slots (length rm) (rt_set_q st q') s) as [st1 o1]. cbn [fst snd] in *.
+    destruct (rt_fire_all_pinv E' st1 P2) as [P3 O3]. destruct (rt_fire_all st1) as [st2 o2]. cbn [fst snd] in *.
+    split; [exact P3|]. apply Forall_app. split; [|apply Forall_app; auto].
     rewrite Forall_forall. intros x I. apply in_map_iff in I. destruct I as (y & Y & _). subst x. exact I.
   - unfold rt_disconnect.
     pose proof (rt_nodes_cancel (rt_sess_match s) (rs_q st)) as Pm.
     destruct (sq_cancel (rt_sess_match s) (rs_q st)) as [rm q']. cbn [fst snd] in *.
+    destruct (rt_pinv_held_split E' st s P') as (rest & Hs & Hr & P2). pose proof P' as (Pq & _).
+    set (si := rt_sget s (rs_sess st)) in *.
+    assert (Hrm : Forall (rt_node_from E') rm).
+    { eapply Permutation_Forall in Pq; [|exact Pm]. apply Forall_app in Pq. tauto. }
     split.
-    + apply rt_pinv_sub; [exact P'|]. intros x I. eapply Permutation_in; [apply Permutation_sym; exact Pm|].
-      apply in_or_app. right. exact I.
-    + destruct rm as [|n0 rm0]; [repeat constructor|].
+    + split.
+      * cbn [rt_set_sess rt_set_q rs_q]. eapply Permutation_Forall in Pq; [|exact Pm]. apply Forall_app in Pq. tauto.
+      * cbn [rt_set_sess rs_sess]. eapply Permutation_Forall; [apply Permutation_sym; apply P2|]. cbn [si_hold app]. exact Hr.
+    + assert (Hg : Forall (rt_node_from E') (si_hold si ++ rm)) by (apply Forall_app; auto).
+      destruct (si_hold si ++ rm) as [|n0 g] eqn:Eg; [repeat constructor|]. rewrite <- Eg in *.
       rewrite Forall_forall. intros x I. apply in_map_iff in I. destruct I as (y & Y & Iy). subst x.
-      assert (Hy : rt_node_from E' y).
-      { unfold rt_pinv in P'. rewrite Forall_forall in P'. apply P'.
-        eapply Permutation_in; [apply Permutation_sym; exact Pm|]. apply in_or_app. left. exact Iy. }
-      destruct Hy as (cfg & r & I2 & A & B). cbn. exists (qn_bytes y), cfg, r. auto.
+      rewrite Forall_forall in Hg. destruct (Hg y Iy) as (cfg & r & I2 & A & B). cbn. exists (qn_bytes y), cfg, r. auto.
   - unfold rt_delete. destruct (sq_remove (rs_q st) s m) as [[[t n] q']|] eqn:Rm; cbn [fst snd].
-    + destruct (rt_nodes_remove _ _ _ _ _ _ Rm) as [Pm _]. split; [|repeat constructor].
-      apply rt_pinv_sub; [exact P'|]. intros x I. eapply Permutation_in; [apply Permutation_sym; exact Pm|]. right. exact I.
+    + destruct (rt_removed_pinv E' st s m t n q' P' Rm) as [P1 _]. split; [exact P1|repeat constructor].
     + split; [exact P'|constructor].
-  - unfold rt_io_process, rt_fire_all.
-    destruct (rt_fire_pinv E' (rt_budget (rs_q st)) st P') as [P1 O1].
-    destruct (rt_fire (rt_budget (rs_q st)) st) as [st1 o1]. cbn [fst snd] in *.
+  - unfold rt_io_process.
+    destruct (rt_fire_all_pinv E' st P') as [P1 O1]. destruct (rt_fire_all st) as [st1 o1]. cbn [fst snd] in *.
     destruct (rt_wait st1) as [w hd]. set (et := rt_epoll_timeout w tmo).
-    set (st2 := rt_mk_state _ (rs_base st1) (rs_q st1) (rs_uid st1)).
+    set (st2 := rt_set_now st1 _).
     assert (P2 : rt_pinv E' st2) by exact P1.
-    destruct (rt_fire_pinv E' (rt_budget (rs_q st2)) st2 P2) as [P3 O3].
-    destruct (rt_fire (rt_budget (rs_q st2)) st2) as [st3 o3]. cbn [fst snd] in *.
+    destruct (rt_fire_all_pinv E' st2 P2) as [P3 O3]. destruct (rt_fire_all st2) as [st3 o3]. cbn [fst snd] in *.
     split; [exact P3|]. apply Forall_app. split; [exact O1|]. constructor; [exact I|].
     apply Forall_app. split; [exact O3|repeat constructor].
   - cbn. split; [exact P'|repeat constructor].
@@ -170,30 +269,33 @@ Proof.
     intros e I. rewrite <- EE. apply in_or_app. left. exact I.
 Qed.
 
+Lemma rt_pinv_init : forall t0 nst, rt_pinv [] (rt_init t0 nst).
+Proof. intros. unfold rt_pinv, rt_init. cbn [rs_q rs_sess rt_nodes map]. rewrite rt_held_init. split; constructor. Qed.
+
 (* every transmitted datagram: bytes, session and T of a submitted message *)
-Theorem rt_tx_provenance : forall t0 evs t u s b c T,
-  In (RoTx t u s b c T) (snd (rt_run (rt_init t0) evs)) ->
+Theorem rt_tx_provenance : forall t0 nst evs t u s b c T,
+  In (RoTx t u s b c T) (snd (rt_run (rt_init t0 nst) evs)) ->
   exists m cfg r, In (RtSend s m b cfg r) evs /\ T = rt_cfg_T cfg r.
 Proof.
-  intros t0 evs t u s b c T I.
-  destruct (rt_run_pinv evs [] (rt_init t0) (Forall_nil _)) as [_ O]. cbn [app] in O.
+  intros t0 nst evs t u s b c T I.
+  destruct (rt_run_pinv evs [] (rt_init t0 nst) (rt_pinv_init t0 nst)) as [_ O]. cbn [app] in O.
   rewrite Forall_forall in O. apply (O _ I).
 Qed.
 
 (* hence every T of every trace lies in the range of its session's settings *)
-Theorem rt_tx_timeout_in_range : forall t0 evs t u s b c T,
+Theorem rt_tx_timeout_in_range : forall t0 nst evs t u s b c T,
   (forall s' m b' cfg r, In (RtSend s' m b' cfg r) evs ->
      fp_setting_ok (rc_at_ip cfg) (rc_at_fp cfg) /\ fp_setting_ok (rc_arf_ip cfg) (rc_arf_fp cfg) /\
      0 <= r <= 255) ->
-  In (RoTx t u s b c T) (snd (rt_run (rt_init t0) evs)) ->
+  In (RoTx t u s b c T) (snd (rt_run (rt_init t0 nst) evs)) ->
   exists m cfg r, In (RtSend s m b cfg r) evs /\
     fp_lo (fp_Q (rc_at_ip cfg) (rc_at_fp cfg)) <= T <=
     fp_hi (fp_Q (rc_at_ip cfg) (rc_at_fp cfg)) (fp_Q (rc_arf_ip cfg) (rc_arf_fp cfg)) /\
     fp_ms (rc_at_ip cfg) (rc_at_fp cfg) - 8 <= T /\
     1000 * T <= (fp_ms (rc_at_ip cfg) (rc_at_fp cfg) + 8) * (fp_ms (rc_arf_ip cfg) (rc_arf_fp cfg) + 8) + 8313.
 Proof.
-  intros t0 evs t u s b c T Ok I.
-  destruct (rt_tx_provenance _ _ _ _ _ _ _ _ I) as (m & cfg & r & Is & ET).
+  intros t0 nst evs t u s b c T Ok I.
+  destruct (rt_tx_provenance _ _ _ _ _ _ _ _ _ I) as (m & cfg & r & Is & ET).
   exists m, cfg, r. split; [exact Is|].
   destruct (Ok _ _ _ _ _ Is) as (Ha & Hf & Hr).
   destruct (fp_timeout_range _ _ _ _ r Ha Hf Hr) as (B & L & H & _). unfold rt_cfg_T in ET. rewrite <- ET in B.
